@@ -29,23 +29,31 @@ def exception_classes(ctx: Ctx) -> Set[str]:
 def error_builders(ctx: Ctx) -> List[FuncInfo]:
     """Functions all of whose returns are freshly built exception objects."""
     exc = exception_classes(ctx)
-    out = []
-    for fi in ctx.repo.all_functions():
-        rets = [n for n in walk_local(fi.node) if isinstance(n, ast.Return) and n.value is not None]
-        if not rets:
-            continue
-        good = True
-        for r in rets:
-            v = single_def(ctx, fi, r.value)
-            if not isinstance(v, ast.Call):
-                good = False
-                break
-            ts = ctx.cg.resolve_call(v, fi)
-            if not ts or not all(t.kind == 'class' and t.cls.fq in exc for t in ts):
-                good = False
-                break
-        if good:
-            out.append(fi)
+    out: List[FuncInfo] = []
+    known: set = set()
+    grew = True
+    while grew:                 # a builder may hand the construction on to another builder (error() -> _located_error() -> DecodeError(...))
+        grew = False
+        for fi in ctx.repo.all_functions():
+            if fi.fq in known:
+                continue
+            rets = [n for n in walk_local(fi.node) if isinstance(n, ast.Return) and n.value is not None]
+            if not rets:
+                continue
+            good = True
+            for r in rets:
+                v = single_def(ctx, fi, r.value)
+                if not isinstance(v, ast.Call):
+                    good = False
+                    break
+                ts = ctx.cg.resolve_call(v, fi)
+                if not ts or not all((t.kind == 'class' and t.cls.fq in exc) or (t.kind == 'func' and t.func.fq in known) for t in ts):
+                    good = False
+                    break
+            if good:
+                out.append(fi)
+                known.add(fi.fq)
+                grew = True
     return out
 
 
